@@ -4,3 +4,5 @@ import RenoVerif.Gen.RK
 import RenoVerif.Gen.RKProps
 import RenoVerif.Model.Cover
 import RenoVerif.Props.C20
+import RenoVerif.Model.DumpProto
+import RenoVerif.Props.C14
